@@ -90,6 +90,8 @@ func ImportModuleLevelObject(ctx Context, name string, globals, locals StringDic
 	if impl := GetModuleImpl(name); impl != nil {
 		module, err := ctx.ModuleInit(impl)
 		if err != nil {
+			// A module whose code failed must not stay importable
+			ctx.Store().removeModule(name)
 			return nil, err
 		}
 		return module, nil
@@ -126,6 +128,10 @@ func ImportModuleLevelObject(ctx Context, name string, globals, locals StringDic
 
 	module, err := RunCode(ctx, out.Code, out.FileDesc, name)
 	if err != nil {
+		// A module whose code failed must not stay importable: the
+		// next import runs it again instead of returning the
+		// partially initialised module (as sys.modules does)
+		ctx.Store().removeModule(name)
 		return nil, err
 	}
 
